@@ -275,7 +275,7 @@ theorem root_file_parent (root : PathC) (hx : hasLalrpopExt root = true) :
       omega
   · have h1 := List.dropLast_concat_getLast hne
     have h2 : root.getLast hne = .normal n := by
-      have := List.getLast?_eq_getLast hne
+      have := List.getLast?_eq_some_getLast hne
       rw [this] at hlast
       exact Option.some.inj hlast
     rw [h2] at h1
@@ -356,7 +356,8 @@ theorem processFile_events (s : Session) (good : PathC → Bool) (f : PathC) :
     | error e => simp [rerunsOf, generatedOf]
     | ok rp =>
       cases hr : s.emitRerun <;> cases hfn : (fileName rs).isNone <;> cases hg : good f <;>
-        simp [rerunsOf, generatedOf, hr, hfn, hg]
+        cases hu : s.unreadable.contains f <;>
+        simp [rerunsOf, generatedOf, hr, hfn, hg, hu]
 
 /-- **`rerun_lists_processed`**: when every file is processed successfully, the rerun directives
     (if enabled) name exactly the processed files, in processing order, and these are exactly the
@@ -449,7 +450,9 @@ theorem processFile_no_conflict (s : Session) (good : PathC → Bool) (f : PathC
       simp only
       split
       · simp
-      · split <;> simp
+      · split
+        · simp
+        · split <;> simp
 
 theorem processFiles_no_conflict (s : Session) (good : PathC → Bool) (fs : List PathC) :
     (processFiles v s good fs).2 ≠ .inDirConflict := by
